@@ -323,10 +323,19 @@ move_thdir_to_final(const char *thdir, const char *thdir_final)
 
 	struct dirent *dirent;
 	const char *prefix = "stream.";
+	const char *metadata = "stream.json";
+	int has_metadata = 0;
 	while ((dirent = readdir(dir)) != NULL) {
 		/* It should only contain stream.* directories, skip others */
 		if (strncmp(dirent->d_name, prefix, strlen(prefix)) != 0)
 			continue;
+
+		/* The metadata marks the stream as finished, so it must be
+		 * the last file to appear in the final directory */
+		if (strcmp(dirent->d_name, metadata) == 0) {
+			has_metadata = 1;
+			continue;
+		}
 
 		char thread[PATH_MAX];
 		if (snprintf(thread, PATH_MAX, "%s/%s", thdir,
@@ -353,6 +362,20 @@ move_thdir_to_final(const char *thdir, const char *thdir_final)
 	}
 
 	closedir(dir);
+
+	/* Move the metadata once the rest of files are in place */
+	if (has_metadata && ret == 0) {
+		char meta[PATH_MAX];
+		char meta_final[PATH_MAX];
+		if (snprintf(meta, PATH_MAX, "%s/%s", thdir, metadata) >= PATH_MAX
+				|| snprintf(meta_final, PATH_MAX, "%s/%s",
+					thdir_final, metadata) >= PATH_MAX) {
+			err("snprintf: path too large: %s/%s", thdir, metadata);
+			ret = 1;
+		} else if (move_thread_to_final(meta, meta_final) != 0) {
+			ret = 1;
+		}
+	}
 
 	/* Warn the user, but we cannot do much at this point */
 	if (ret)
